@@ -1,6 +1,7 @@
 import MinaModel.Animator
 import MinaModel.Spec.Timing
 import MinaModel.Spec.CssValue
+import MinaModel.Bevy
 import Std.Data.HashMap
 /-!
 # Line-protocol driver: the model at `Float32`
@@ -26,6 +27,7 @@ structure Session where
   shapes : List Shape := []
   slots : Std.HashMap Nat Obj := {}
   chain : Std.HashMap String (List (Val F)) := {}   -- running target of `updchain`, per shape
+  worlds : List (Option (World F)) := []           -- bevy: one world per system order (index = 2*chainFirst + qFirst)
 
 def fb (s : String) : F := Float32.ofBits (UInt32.ofNat s.toNat!)
 def bits (x : F) : String := toString x.toBits.toNat
@@ -129,6 +131,26 @@ def showQ : Option (Except Panic (Val Rat)) → String
 
 def tsOf (w : Array String) (p : Nat) : TimeScale F :=
   ⟨fb w[p+1]!, fb w[p]!, parseRepeat w[p+2]!, w[p+3]! == "1"⟩
+
+def stateIdx : AnimState → Nat
+  | .none => 0 | .waiting => 1 | .playing => 2 | .ended => 3
+
+def insertSorted (x : Nat) : List Nat → List Nat
+  | [] => [x]
+  | y :: ys => if x ≤ y then x :: y :: ys else y :: insertSorted x ys
+
+def showWorld (w : World F) (evs : List AnimState) : String :=
+  let a := w.animP
+  let key := match w.sel with | some s => toString s.key | none => "-"
+  let sorted := (evs.map stateIdx).foldl (fun acc x => insertSorted x acc) []
+  let ev := ",".intercalate (sorted.map toString)
+  let q := match w.animQ with
+    | some aq => s!"{stateIdx aq.state} {aq.posNs} {showVals w.compQ}"
+    | none => "-"
+  s!"{stateIdx a.state} {a.posNs} {if a.enabled then 1 else 0} {showVals w.compP} | key={key} | ev={ev} | {q}"
+
+def showVariants (ws : List (Option (World F))) (evs : List (List AnimState)) : String :=
+  " || ".intercalate ((ws.zip evs).map fun (ow, ev) => match ow with | some wd => showWorld wd ev | none => "panic")
 
 def asMerged : Obj → Option (Shape × Merged F)
   | .tl sh t => some (sh, ⟨[t]⟩)
@@ -329,6 +351,67 @@ def runLine (st : Session) (line : String) : Session × String := Id.run do
       | .error p => return ({ st with slots := st.slots.erase w[1]!.toNat! }, "panic:" ++ p.tag)
     | _ => return (st, "bad-slot")
   | "reset" => return ({}, "ok")
+  | "border" => return (st, "ok")
+  | "bapp" =>
+    let getP (tok : String) : Option (Merged F) :=
+      if tok == "-" then none else ((st.slots.get? tok.toNat!).bind asMerged).map (·.2)
+    let compP : List (Val F) := [.num (fb w[1]!), .num (fb w[2]!)]
+    let animP : BAnimator F := { enabled := w[4]! != "0", posNs := 0, timeline := getP w[3]!, state := .none }
+    let sel : Option (Selector F) :=
+      if w[5]! == "none" then none else
+      let toks := w[5]!.splitOn ","
+      let tls := (toks.zipIdx.filterMap fun (t, i) => (getP t).map fun m => (i, m))
+      some { timelines := tls, key := w[6]!.toNat!, prevKey := none }
+    let chain : Option (List (Nat × Nat)) :=
+      if w[7]! == "none" then none else
+      -- HashMap insertion: a later pair for the same key replaces the earlier one
+      let pairs := (w[7]!.splitOn ",").filterMap fun p => match p.splitOn ">" with | [x, y] => some (x.toNat!, y.toNat!) | _ => none
+      some pairs.reverse
+    let (compQ, animQ) : List (Val F) × Option (BAnimator F) :=
+      if w[8]! == "none" then ([], none) else
+      match w[8]!.splitOn "," with
+      | [z, t] => ([.num (fb z)], some { enabled := true, posNs := 0, timeline := getP t, state := .none })
+      | _ => ([], none)
+    let wd : World F := { compP := compP, animP := animP, sel := sel, chain := chain, compQ := compQ, animQ := animQ, pending := [] }
+    -- bevy leaves the order of (chain, select) and of (animate<Q>, chain) open: keep one world per order;
+    -- the implementation must follow one of them consistently (checked by the runner)
+    return ({ st with worlds := [some wd, some wd, some wd, some wd] }, showVariants [some wd, some wd, some wd, some wd] [[], [], [], []])
+  | "frame" =>
+    let res := st.worlds.zipIdx.map fun (ow, i) =>
+      match ow with
+      | none => (none, [])
+      | some wd =>
+        match frame wd w[1]!.toNat! (i / 2 == 1) (i % 2 == 1) with
+        | .ok (wd', evP, evQ) => (some wd', evP ++ evQ)
+        | .error _ => (none, [])
+    return ({ st with worlds := res.map (·.1) }, showVariants (res.map (·.1)) (res.map (·.2)))
+  | "setkey" =>
+    let ws := st.worlds.map fun ow => ow.map fun wd => { wd with sel := wd.sel.map fun s => { s with key := w[1]!.toNat! } }
+    return ({ st with worlds := ws }, showVariants ws [[], [], [], []])
+  | "enable" =>
+    let ws := st.worlds.map fun ow => ow.map fun wd => { wd with animP := { wd.animP with enabled := w[1]! == "1" } }
+    return ({ st with worlds := ws }, showVariants ws [[], [], [], []])
+  | "breset" =>
+    let ws := st.worlds.map fun ow => ow.map fun wd => { wd with animP := wd.animP.reset }
+    return ({ st with worlds := ws }, showVariants ws [[], [], [], []])
+  | "settl" =>
+    let tl := ((st.slots.get? w[1]!.toNat!).bind asMerged).map (·.2)
+    let ws := st.worlds.map fun ow => ow.map fun wd =>
+      match tl with
+      | some m => { wd with animP := { wd.animP with timeline := some m } }
+      | none => wd
+    return ({ st with worlds := ws }, showVariants ws [[], [], [], []])
+  | "terminal" =>
+    let tl := ((st.slots.get? w[1]!.toNat!).bind asMerged).map (·.2)
+    let outs := st.worlds.map fun ow =>
+      match ow, tl with
+      | some wd, some m => (match m.update wd.compP (dec 1000000000 0) with | .ok c => showVals c | .error _ => "panic")
+      | some wd, none => showVals wd.compP
+      | none, _ => "panic"
+    return (st, " || ".intercalate outs)
+  | "setpos" =>
+    let ws := st.worlds.map fun ow => ow.map fun wd => { wd with animP := { wd.animP with posNs := w[1]!.toNat! } }
+    return ({ st with worlds := ws }, showVariants ws [[], [], [], []])
   | _ => return (st, "bad-op")
 
 partial def loop (h : IO.FS.Stream) (out : IO.FS.Stream) (st : Session) : IO Unit := do
